@@ -10,6 +10,7 @@ from ...schema import (
     EnumType,
     GraphQLType,
     InputObjectType,
+    ListType,
     NonNullType,
     ScalarType,
     unwrap_type,
@@ -93,6 +94,24 @@ class ValuesOfCorrectTypeChecker(ValidationVisitor):
                 input_type.get_value(node.value)
             except UnknownEnumValue:
                 self._report_bad_value(input_type, node)
+
+    def enter_list_value(self, node):
+        # The type info visitor has already entered the list: the type
+        # expected for the list itself is the second to last on the stack.
+        stack = self.type_info._input_type_stack
+        input_type = stack[-2] if len(stack) >= 2 else None
+        if input_type is None:
+            return
+
+        nullable_type = (
+            input_type.type
+            if isinstance(input_type, NonNullType)
+            else input_type
+        )
+        if not isinstance(nullable_type, ListType):
+            # A list literal can only be provided where a list is expected.
+            self._report_bad_value(input_type, node)
+            raise SkipNode()
 
     def enter_object_value(self, node):
         named_type = (
